@@ -7,7 +7,7 @@ from parglare.exceptions import SRConflicts, RRConflicts, DisambiguationError
 
 import gen
 from pcommon import *
-from enc import ForestDump, forest_alt_keys, oracle_alt_keys, glr_alt_set, parse_glr_reply
+from enc import ForestDump, forest_alt_keys, oracle_alt_keys, glr_alt_set, parse_glr_reply, enc_tree
 
 MANIFEST_ENTRY = {
     "category": "proof",
@@ -137,9 +137,16 @@ def run_unit(u):
                         d = ForestDump(num, f.result)
                     impl = ("forest", d)
                     impl_glr = glr_alt_set(num, f)
+                    # the first trees as positioned objects: each derives a prefix (tree checker) and its root
+                    # ends where its own last token ends (not where a longer sentence prefix ends)
+                    ptrees = []
+                    if not d.cyclic:
+                        with budget(3):
+                            ptrees = [f[i] for i in range(min(f.solutions, 6))]
                 except parglare.SyntaxError as e:
                     impl = ("syntax", None)
                     impl_glr = "syntax"
+                    ptrees = []
                 except BudgetExceeded:
                     continue
                 except Exception as e:
@@ -151,12 +158,37 @@ def run_unit(u):
                 qp = b.add("prefix", CHART_FUEL)
                 qs = b.add("sppf", CHART_FUEL, 0)
                 qf = b.add("sppf", CHART_FUEL, 1)
+                for t in ptrees:
+                    kids = [] if t.is_term() else list(t)
+                    # trailing empty nodes are placed after the layout that follows (finding F-POS-3, C08):
+                    # the extent of the root is compared on grammars without empty productions only
+                    if not kids or "nullable" in feats:
+                        continue
+                    stack, ends = [kids[-1]], []
+                    while stack:
+                        x = stack.pop()
+                        if x.is_term():
+                            ends.append(x.end_position)
+                        else:
+                            stack.extend(list(x))
+                    if ends and t.end_position != max(ends):
+                        res["violations"].append({"kind": "prefix-tree-root-does-not-end-at-its-last-token",
+                                                  "case": case, "observed": [t.start_position, t.end_position],
+                                                  "expected": max(ends)})
+                        break
+                qpt = [b.add("derives", 0, enc_tree(num, t)) for t in ptrees]
                 checks.append((case, impl, qp, qs, qf, skip_table(gp, text),
-                               b.add("glr", 4000, 0, 1 if lexdis else 0), impl_glr))
+                               b.add("glr", 4000, 0, 1 if lexdis else 0), impl_glr, qpt))
             out = b.run()
             st["traces"] += len(checks)
-            for case, impl, qp, qs, qf, skip, qg, impl_glr in checks:
+            for case, impl, qp, qs, qf, skip, qg, impl_glr, qpt in checks:
                 lexdis_on = case["lexical_disambiguation"]
+                for q in qpt:
+                    bump(st, "prefix_trees_checked")
+                    if out[q] != "derives 1":
+                        res["violations"].append({"kind": "prefix-forest-tree-is-not-a-derivation-of-a-prefix",
+                                                  "case": case, "observed": out[q]})
+                        break
                 # the GLR driver model with consume_input off: acceptance and the exact set of packed alternatives
                 mg = parse_glr_reply(out[qg])
                 if isinstance(mg, str) and mg in ("ordersens", "fuel"):
